@@ -363,6 +363,11 @@ package ice
 //@   frames[C03] c.offsets[*]
 //@   ensures[C03] arr(c.offsets) == old(arr(c.offsets)) || fresh(c.offsets)
 //@
+//@ func (*chunkedDocumentCoder).Write
+//@   frames[C03] c.offsets[*]
+//@   ensures[C03] arr(c.offsets) == old(arr(c.offsets)) || fresh(c.offsets)
+//@   loop 0 invariant[C03] c.offsets == old(c.offsets) || (arr(c.offsets) == old(arr(c.offsets)) || fresh(c.offsets))
+//@
 //@ func (*chunkedDocumentCoder).Add
 //@   frames[C03] c.offsets[*]
 //@   ensures[C03] arr(c.offsets) == old(arr(c.offsets)) || fresh(c.offsets)
@@ -370,6 +375,8 @@ package ice
 //@ // survivors of one segment get consecutive new numbers starting at newDocNum, in document
 //@ // order; dropped documents get the sentinel
 //@ func mergeStoredAndRemapSegment
+//@   frames[C03] segNewDocNums[*], docNumOffsets[*], docChunkCoder.offsets[*]
+//@   ensures[C03] arr(docChunkCoder.offsets) == old(arr(docChunkCoder.offsets)) || fresh(docChunkCoder.offsets)
 //@   requires[C03] seg != nil && docChunkCoder != nil && len(segNewDocNums) == seg.footer.numDocs
 //@   requires[C03] arr(segNewDocNums) != arr(docNumOffsets) && arr(segNewDocNums) != arr(docChunkCoder.offsets) && arr(segNewDocNums) != 0
 //@   let D = ite(dropsI == nil, emptyset(), bset(dropsI))
@@ -377,21 +384,53 @@ package ice
 //@   loop 0 invariant[C03] 0 <= docNum && docNum <= seg.footer.numDocs && newDocNum == base + docNum - cardbelow(D, docNum)
 //@   loop 0 invariant[C03] forall(d, 0, docNum, segNewDocNums[d] == ite(select(D, d), dropped(), base + d - cardbelow(D, d)))
 //@   loop 0 invariant[C03] seg.footer.numDocs == old(seg.footer.numDocs) && arr(segNewDocNums) != arr(docChunkCoder.offsets) && (dropsI != nil ==> bset(dropsI) == old(bset(dropsI)))
+//@   loop 0 invariant[C03] arr(docChunkCoder.offsets) == old(arr(docChunkCoder.offsets)) || fresh(docChunkCoder.offsets)
 //@   ensures[C03] result1 == nil ==> result0 == base + seg.footer.numDocs - cardbelow(D, seg.footer.numDocs)
 //@   ensures[C03] result1 == nil ==> forall(d, 0, seg.footer.numDocs, segNewDocNums[d] == ite(select(D, d), dropped(), base + d - cardbelow(D, d)))
 //@
+//@ // number of survivors of segments [0, j): sum over i < j of numDocs(i) - |drops(i) below numDocs(i)|,
+//@ // as a function of the segment list, the deletion bitmaps and the heap they live in
+//@ uninterpreted survUpTo(sa intarr, so int, hf intarr, hn intarr, da intarr, doff int, hb setheap, j int) int
+//@ axiom surv-zero (sa intarr, so int, hf intarr, hn intarr, da intarr, doff int, hb setheap) : survUpTo(sa, so, hf, hn, da, doff, hb, 0) == 0 pattern survUpTo(sa, so, hf, hn, da, doff, hb, 0)
+//@ axiom surv-step (sa intarr, so int, hf intarr, hn intarr, da intarr, doff int, hb setheap, j int, e int) : e == j + 1 && j >= 0 ==> survUpTo(sa, so, hf, hn, da, doff, hb, e) == survUpTo(sa, so, hf, hn, da, doff, hb, j) + select(hn, select(hf, select(sa, so + j))) - cardbelow(ite(select(da, doff + j) == 0, emptyset(), select(hb, select(da, doff + j))), select(hn, select(hf, select(sa, so + j)))) pattern survUpTo(sa, so, hf, hn, da, doff, hb, j), survUpTo(sa, so, hf, hn, da, doff, hb, e)
+//@
+//@ func (*Segment).copyStoredDocs
+//@   frames[C03] newDocNumOffsets[*], docChunkCoder.offsets[*]
+//@   loop 0 invariant[C03] arr(docChunkCoder.offsets) == old(arr(docChunkCoder.offsets)) || fresh(docChunkCoder.offsets)
+//@   loop 1 invariant[C03] arr(docChunkCoder.offsets) == old(arr(docChunkCoder.offsets)) || fresh(docChunkCoder.offsets)
+//@   ensures[C03] arr(docChunkCoder.offsets) == old(arr(docChunkCoder.offsets)) || fresh(docChunkCoder.offsets)
+//@
+//@ // C03, the mapping itself: segment j's survivors get survUpTo(j) + (rank among its survivors), in
+//@ // document order; dropped documents get the sentinel; one slice per segment of that segment's length
 //@ func mergeStoredAndRemap
 //@   requires[C03,C04] cast(w, "*countHashWriter") != nil && len(drops) == len(segments) && forall(i, 0, len(segments), segments[i] != nil)
 //@   loop 0 invariant[C03] len(newDocNums) == rangeindex + 1
 //@   loop 0 invariant[C03] forall(j, 0, len(newDocNums), len(newDocNums[j]) == segments[j].footer.numDocs)
 //@   loop 0 invariant[C03] forall(j, 0, len(segments), segments[j] != nil)
+//@   loop 0 invariant[C03] @running_total newDocNum == survUpTo(contents(segments), off(segments), heap("H$Segment$footer"), heap("H$footer$numDocs"), contents(drops), off(drops), heap("X$_$bset"), rangeindex + 1)
+//@   loop 0 invariant[C03] @tables_disjoint forall(j, 0, len(newDocNums), arr(newDocNums[j]) != arr(docNumOffsets) && arr(newDocNums[j]) != arr(docChunkCoder.offsets))
+//@   loop 0 invariant[C03] @mapping forall(j, 0, len(newDocNums), forall(d, 0, segments[j].footer.numDocs, newDocNums[j][d] == ite(select(ite(drops[j] == nil, emptyset(), bset(drops[j])), d), dropped(), survUpTo(contents(segments), off(segments), heap("H$Segment$footer"), heap("H$footer$numDocs"), contents(drops), off(drops), heap("X$_$bset"), j) + d - cardbelow(ite(drops[j] == nil, emptyset(), bset(drops[j])), d))))
+//@   loop 1 invariant[C03] i <= seg.footer.numDocs && newDocNum - i == survUpTo(contents(segments), off(segments), heap("H$Segment$footer"), heap("H$footer$numDocs"), contents(drops), off(drops), heap("X$_$bset"), rangeindex + 1)
+//@   loop 1 invariant[C03] forall(d, 0, i, segNewDocNums[d] == survUpTo(contents(segments), off(segments), heap("H$Segment$footer"), heap("H$footer$numDocs"), contents(drops), off(drops), heap("X$_$bset"), rangeindex + 1) + d)
+//@   loop 1 invariant[C03] len(newDocNums) == rangeindex + 1 && forall(j, 0, len(newDocNums), arr(newDocNums[j]) != arr(segNewDocNums))
+//@   loop 1 invariant[C03] forall(j, 0, len(newDocNums), forall(d, 0, segments[j].footer.numDocs, newDocNums[j][d] == ite(select(ite(drops[j] == nil, emptyset(), bset(drops[j])), d), dropped(), survUpTo(contents(segments), off(segments), heap("H$Segment$footer"), heap("H$footer$numDocs"), contents(drops), off(drops), heap("X$_$bset"), j) + d - cardbelow(ite(drops[j] == nil, emptyset(), bset(drops[j])), d))))
 //@   ensures[C03] @one_slice_per_segment err == nil ==> len(newDocNums) == len(segments)
 //@   ensures[C03] @slice_len_is_doc_count err == nil ==> forall(j, 0, len(segments), len(newDocNums[j]) == segments[j].footer.numDocs)
+//@   ensures[C03] @mapping err == nil ==> forall(j, 0, len(segments), forall(d, 0, segments[j].footer.numDocs, newDocNums[j][d] == ite(select(ite(drops[j] == nil, emptyset(), bset(drops[j])), d), dropped(), survUpTo(contents(segments), off(segments), heap("H$Segment$footer"), heap("H$footer$numDocs"), contents(drops), off(drops), heap("X$_$bset"), j) + d - cardbelow(ite(drops[j] == nil, emptyset(), bset(drops[j])), d))))
+//@
+//@ func computeNewDocCount
+//@   requires[C03] len(drops) == len(segments) && forall(i, 0, len(segments), segments[i] != nil)
+//@   // input contract: deletion bitmaps only name existing documents
+//@   requires[C03] forall(j, 0, len(segments), drops[j] != nil ==> forall(k, select(bset(drops[j]), k) ==> 0 <= k && k < segments[j].footer.numDocs))
+//@   loop 0 invariant[C03] newDocCount == survUpTo(contents(segments), off(segments), heap("H$Segment$footer"), heap("H$footer$numDocs"), contents(drops), off(drops), heap("X$_$bset"), rangeindex + 1)
+//@   ensures[C03] result0 == survUpTo(contents(segments), off(segments), heap("H$Segment$footer"), heap("H$footer$numDocs"), contents(drops), off(drops), heap("X$_$bset"), len(segments))
 //@
 //@ func mergeToWriter
 //@   requires[C03,C04] cr != nil && len(drops) == len(segments) && forall(i, 0, len(segments), segments[i] != nil)
+//@   requires[C03] forall(j, 0, len(segments), drops[j] != nil ==> forall(k, select(bset(drops[j]), k) ==> 0 <= k && k < segments[j].footer.numDocs))
 //@   ensures[C03] @one_slice_per_segment err == nil ==> len(newDocNums) == len(segments)
 //@   ensures[C03] @slice_len_is_doc_count err == nil ==> forall(j, 0, len(segments), len(newDocNums[j]) == segments[j].footer.numDocs)
+//@   ensures[C03] @count_is_survivors err == nil ==> footerVal.numDocs == old(survUpTo(contents(segments), off(segments), heap("H$Segment$footer"), heap("H$footer$numDocs"), contents(drops), off(drops), heap("X$_$bset"), len(segments)))
 //@
 //@ func newChunkedDocumentCoder
 //@   ensures[C03,C04,C06] result0 != nil && fresh(result0) && result0.w == w && result0.chunkSize == chunkSize && result0.n == 0 && result0.bytes == 0
